@@ -37,7 +37,24 @@ pub fn show_config(config: &config::Config, writer: &mut dyn Write) -> std::io::
             .join(" "),
         commit_style = config.commit_style.to_painted_string(),
         file_style = config.file_style.to_painted_string(),
-        hunk_header_style = config.hunk_header_style.to_painted_string(),
+        // The words `file`, `line-number` and `omit-code-fragment` are part of the value of
+        // hunk-header-style but are not stored in the Style itself.
+        hunk_header_style = config.hunk_header_style.paint(format!(
+            "{}{}{}{}",
+            match config.hunk_header_style_include_file_path {
+                config::HunkHeaderIncludeFilePath::Yes => "file ",
+                config::HunkHeaderIncludeFilePath::No => "",
+            },
+            match config.hunk_header_style_include_line_number {
+                config::HunkHeaderIncludeLineNumber::Yes => "line-number ",
+                config::HunkHeaderIncludeLineNumber::No => "",
+            },
+            match config.hunk_header_style_include_code_fragment {
+                config::HunkHeaderIncludeCodeFragment::Yes => "",
+                config::HunkHeaderIncludeCodeFragment::No => "omit-code-fragment ",
+            },
+            config.hunk_header_style
+        )),
         minus_emph_style = config.minus_emph_style.to_painted_string(),
         minus_empty_line_marker_style = config.minus_empty_line_marker_style.to_painted_string(),
         minus_non_emph_style = config.minus_non_emph_style.to_painted_string(),
